@@ -242,8 +242,8 @@ func (c *ctx) extraFacts() *leanFile {
 
 	// modFunc callback
 	modSrc := "?"
-	if vs := c.varDecl("modFunc"); vs != nil && len(vs.Values) == 1 {
-		ast.Inspect(vs.Values[0], func(n ast.Node) bool {
+	if body := c.funcNode("modFunc"); body != nil {
+		ast.Inspect(body, func(n ast.Node) bool {
 			if r, ok := n.(*ast.ReturnStmt); ok && len(r.Results) == 1 {
 				if _, isCall := r.Results[0].(*ast.CallExpr); isCall {
 					s := squeeze(c.src(r.Results[0]))
